@@ -1,1 +1,55 @@
-From Ufw Require Import Model.Endpoints.
+(* C17  Endpoints move exactly N octets in order whatever the driver does.
+   Statements only; proofs in Proof/EndpointsLemmas.v; model Model/Endpoints.v (scripted drivers:
+   every driver call consumes one behaviour event Give k | Zero | Intr | Again | Fail e).
+   Proved here: the source and sink sides (get/put, at-most variants, refusal of invalid counts) for
+   EVERY script, octet- and chunk-style drivers.  The source-to-sink plumbing functions are modelled
+   (Model/Endpoints.v sts_*) and tied by correspondence only - see DESIGN.md C17 (partial). *)
+From Ufw Require Import Base.Bits Base.Errno Model.Endpoints Proof.EndpointsLemmas.
+Local Open Scope N_scope.
+
+(* reading N octets: what is delivered followed by what the driver still holds is the original stream
+   (no loss, duplication, reordering); success = exactly the next N octets; EINTR/EAGAIN never surface *)
+Theorem C17_get : forall s n r d s', source_get_chunk s n = Some (r, d, s') ->
+  d ++ s_stream s' = s_stream s /\
+  (forall c, r = DOk c -> c = n /\ N.of_nat (length d) = n /\ d = firstn (N.to_nat n) (s_stream s)) /\
+  (forall e, r = DErr e -> is_retry e = false).
+Proof. exact get_chunk_exact. Qed.
+Print Assumptions C17_get.
+
+Theorem C17_get_invalid : forall s n, n = 0 \/ SSIZE_MAX < n ->
+  source_get_chunk s n = Some (DErr EINVAL, [], s).
+Proof. exact get_chunk_invalid. Qed.
+Print Assumptions C17_get_invalid.
+
+Theorem C17_get_atmost : forall s n r d s', source_get_chunk_atmost s n = Some (r, d, s') ->
+  d ++ s_stream s' = s_stream s /\ (forall c, r = DOk c -> N.of_nat (length d) = c /\ c <= n).
+Proof. exact get_chunk_atmost_bound. Qed.
+Print Assumptions C17_get_atmost.
+
+(* writing N octets: what reached the sink is a prefix of the data; success = all N, in order *)
+Theorem C17_put : forall k xs n r k', sink_put_chunk k xs n = Some (r, k') ->
+  exists sent, k_got k' = k_got k ++ sent /\
+    (exists rest, firstn (N.to_nat n) xs = sent ++ rest) /\
+    (forall c, r = DOk c -> c = n /\ sent = firstn (N.to_nat n) xs) /\
+    (forall e, r = DErr e -> is_retry e = false).
+Proof. exact put_chunk_exact. Qed.
+Print Assumptions C17_put.
+
+Theorem C17_put_invalid : forall k xs n, n = 0 \/ SSIZE_MAX < n ->
+  sink_put_chunk k xs n = Some (DErr EINVAL, k).
+Proof. exact put_chunk_invalid. Qed.
+Print Assumptions C17_put_invalid.
+
+Theorem C17_put_atmost : forall k xs r k', sink_put_chunk_atmost k xs = Some (r, k') ->
+  exists sent, k_got k' = k_got k ++ sent /\ (exists rest, xs = sent ++ rest) /\
+               (forall c, r = DOk c -> sent = firstn (N.to_nat c) xs /\ c <= N.of_nat (length xs)) /\
+               (forall e, r = DErr e -> is_retry e = true -> sent = []).
+Proof. exact once_put_spec. Qed.
+Print Assumptions C17_put_atmost.
+
+(* non-vacuity: a chunk driver that gives 2, then nothing, is interrupted, then gives the rest *)
+Example C17_example :
+  source_get_chunk {| s_octet := false; s_stream := [1;2;3;4;5;6]; s_script := [Give 2; Zero; Intr; Give 1]; s_calls := 0 |} 5
+  = Some (DOk 5, [1;2;3;4;5],
+          {| s_octet := false; s_stream := [6]; s_script := []; s_calls := 5 |}).
+Proof. vm_compute. reflexivity. Qed.
